@@ -60,10 +60,9 @@ def is_risky(case):
     """Strided convolutions with image dilation can hit a CHECK failure inside the XLA CPU compiler
     (algebraic simplifier / conv operand swap) that aborts the process: run them in a sacrificial child."""
     o = case["opts"]
-    if o["lhs"] is None or max(o["lhs"]) == 1:
-        return False
-    s = o["stride"]
-    return (max(s) if isinstance(s, list) else s) > 1
+    # observed: aborts need image dilation > 1 together with stride > 1 or filter dilation > 1 (the twin evaluation of C04
+    # raises the filter dilation), so every case with image dilation > 1 is isolated
+    return o["lhs"] is not None and max(o["lhs"]) > 1
 
 
 def _lib_conv(d, A, F, kw):
@@ -123,7 +122,7 @@ def run_case(case):
         r0 = opts["rhs"]
         twin["rhs"] = [v + 1 for v in r0] if isinstance(r0, list) else r0 + 1
     tkw, trkw = convgen.kwargs_for_lib(twin, d), convgen.kwargs_for_ref(twin, d)
-    if all(n > 0 for n in ref.out_size(d, sp, fs, trkw["is_torus"], trkw["stride"], trkw["padding"], trkw["lhs"], trkw["rhs"])) and not is_risky(dict(case, opts=twin)):
+    if all(n > 0 for n in ref.out_size(d, sp, fs, trkw["is_torus"], trkw["stride"], trkw["padding"], trkw["lhs"], trkw["rhs"])):  # (a risky main case already runs in the isolated child, and the twin keeps the image dilation)
         texp = ref.convolve(d, A, F, **trkw)
         tgot = _lib_conv(d, A, F, tkw)
         labels.append("twin_evaluated")
